@@ -313,6 +313,11 @@ func c12Floor(tier string) []*C12Sc {
 		}
 	}
 	// discovery exchange
+	for st := 1; st <= 4; st++ {
+		for _, rs := range []int{0, 5, 1, 99} {
+			out = append(out, &C12Sc{Op: 0, Discovery: &RespSubst{Items: []ItemSubst{{Status: st, Reason: rs, Message: true, Payload: "absent"}}}})
+		}
+	}
 	for _, sb := range singles {
 		out = append(out, &C12Sc{Op: 0, Discovery: sb})
 		if sb == nil {
@@ -485,6 +490,23 @@ func execC12(x *X, scAny any) {
 			x.Reportf("C12.correct-response-rejected", "discovery", "Dial failed with %v although the discovery response was conformant", dialErr)
 		}
 		return
+	}
+	// the discovery exchange itself: Dial succeeded, so the discovery reply must have been acceptable
+	if d := sc.Discovery; d != nil {
+		var it ItemSubst
+		if len(d.Items) > 0 {
+			it = d.Items[0]
+		}
+		switch {
+		case d.HeaderDelta != 0 || d.ItemsDelta != 0:
+			x.Reportf("C12.count-mismatch-accepted", "discovery", "Dial succeeded although the discovery reply had header count delta=%d items delta=%d", d.HeaderDelta, d.ItemsDelta)
+		case it.Status != 0 && !(it.Status == 1 && reasonVal(it.Reason) == kmip.ResultReasonOperationNotSupported):
+			// only "operation failed / operation not supported" means that the server lacks discovery (fallback to 1.0);
+			// any other failed item must surface as an error carrying status, reason and message
+			x.Reportf("C12.failure-returned-as-success", "discovery", "Dial succeeded (version %v) although the discovery item had status %v reason %v", w.client.Version(), statusVals[it.Status%len(statusVals)], reasonVal(it.Reason))
+		case it.Status == 0 && (it.Payload == "absent" || it.Payload == "opaque" || (it.Payload == "other" && opCases[it.PayloadOp%len(opCases)].op != kmip.OperationDiscoverVersions) || it.Op == "absent" || it.Op == "unknown" || (it.Op == "other" && opCases[it.OtherOp%len(opCases)].op != kmip.OperationDiscoverVersions)):
+			x.Reportf("C12.wrong-payload-type", "discovery", "Dial succeeded although the discovery reply carried op=%q payload=%q", it.Op, it.Payload)
+		}
 	}
 	if !res.done {
 		x.Reportf("C12.hang", "call", "the call has not returned at quiescence")
